@@ -466,7 +466,9 @@ _ADDED = {
            "disconnecting copy, leaf routes and tree-node look-ups",
     "C04": "canonical value terms: list-building abstraction of "
            "_Merge.apply (cursor / append / segment forms), refine order by "
-           "cases, per-round rescan, unit propagation over path facts",
+           "cases, per-round rescan, unit propagation over path facts, "
+           "operands of the up-check's intersection test (followed through "
+           "helpers)",
     "C05": "roles read off the allocator's data flow as value terms; "
            "path-sensitive state exploration (PATHS) of the retry loop with "
            "helper summaries: on every path to the commit the proposal was "
@@ -478,13 +480,17 @@ _ADDED = {
            "windows",
     "C08": "canonical value terms by cases (fixed / floating position), "
            "path-sensitive exploration (PATHS) of the children scans, "
-           "allocation-site analysis of the per-child requirement dict",
+           "allocation-site analysis of the per-child requirement dict, "
+           "acceptance bound start + length <= length by cases (path facts "
+           "or range() scan element)",
     "C09": "canonical value terms for the wait flag, writers and the "
            "verification walk",
     "C10": "canonical value terms for table records, arrival directions and "
-           "the loader's words",
+           "the loader's words (attributes stored on some paths keep their "
+           "entry value on the others)",
     "C11": "walk evaluated by cases on value terms (recorded position per "
-           "dimension, sign and wrap case)",
+           "dimension, sign and wrap case); polynomial normal form of the "
+           "signed torus offsets",
     "C12": "canonical value terms per hierarchy level; unguarded insertion "
            "of every target",
     "C13": "proofs on the two halves of the input space (position inside / "
@@ -502,7 +508,8 @@ _ADDED = {
     "C19": "canonical value terms for the factor search and the Ethernet "
            "coordinates",
     "C20": "canonical value terms for option application, size limit, "
-           "splice and byte swap (word-wise or bulk)",
+           "splice and byte swap (word-wise or bulk); must-pass-through of "
+           "the per-field store in Struct.pack",
 }
 for _k, _v in _ADDED.items():
     if _k in CHECKS and _v not in CHECKS[_k]["technique"]:
